@@ -189,7 +189,7 @@ CHECKS["C19"] = dict(
     assumptions=[
         "Universal messages match the configured id or 0x7F; Roland and Yamaha messages match device byte 0x10|id; Roland/Yamaha messages sent to 0x7F are excluded from the verdict (counted)",
         "messages containing data bytes >= 0x80 between F0 and F7 are outside the statement: executed for memory safety only and counted as excluded",
-        "a mode switch is required to reset controllers (not program/bank) and to leave no note sounding",
+        "a mode switch is required to reset controllers (not program/bank) and to leave no note sounding; a GS reset additionally leaves no channel as a custom drum part",
     ],
     min_nontrivial={"quick": 2000, "thorough": 20000},
     manifest=dict(
@@ -208,7 +208,7 @@ CHECKS["C11"] = dict(
     rule="enumeration through the public API (note-on, CC7, CC11, CC74, master-volume SysEx, volume-model / modulator-scaling / full-range-brightness setters) of "
          "velocity x CC7 x CC11 for master volume in {0,1,64,127}, all 5 volume models x 8 FM algorithms x 3 instrument TL sets x modulator scaling on/off "
          "(quick: 31x32x32 boundary-biased sub-grid + full single-axis lines; thorough: the full 127x128x128 grid), plus master volume 0..127 and brightness 0..127 "
-         "lines in both brightness modes, and a 15-step CC74 path (down to 0, up, down, up) on a HELD note. Oracle on the 0x40-0x4F registers as the tap last saw them written "
+         "lines in both brightness modes, a 15-step CC74 path (down to 0, up, down, up) on a HELD note, and the velocity axis for instruments with velocity offsets -100/-20/+20/+100. Oracle on the 0x40-0x4F registers as the tap last saw them written "
          "(a skipped redundant write is not an error): range, carrier monotonicity along every axis, silence at zero, levels follow brightness in both directions and return to the full-brightness values, "
          "modulators untouched / never brighter. Non-trivial = a grid point whose written TL differs from both 127 and the instrument's TL (distinct by construction).",
     assumptions=[
@@ -370,7 +370,7 @@ CHECKS["C07"] = dict(
     rule="rapidcheck SMF structures: format 0/1, 1-8 tracks (track k on channels 2k,2k+1; or, in 1 of 4 multi-track songs, every track on channels 0/1 with the same three keys and the track number carried in the last data byte), divisions {1,24,96,192,480,960,32767,random}, deltas 0 / small / multi-byte VLQ / up to 2M ticks, "
          "note on/off (velocity 0 too), controllers, program, bend, channel and key pressure with and without running status, SysEx F0 and F7, text/marker/sequencer-specific metas carrying "
          "(track,serial) stamps, tempo/time-signature/key/SMPTE/channel-prefix metas in track 0, End-of-Track alone at its tick or not; tempo multipliers {0.25,0.5,1,1.5,4,random}; "
-         "track off/solo and channel masks; tick-driven (three step policies, three granularities) or audio-driven (request sizes 2..70000). An independent interpreter of the generated "
+         "track off / solo / both (also on the same track) and channel masks; tick-driven (three step policies, three granularities) or audio-driven (request sizes 2..70000). An independent interpreter of the generated "
          "structure (exact rational tempo map) gives each event's tick and time; the raw-event-hook stream must contain every expected event once, per-track in tick order with the "
          "same-tick ordering constraints, in global time order, in the first call whose song time reaches its time (never earlier/later; audio: within one 512-frame period early, never late); "
          "totalTimeLength = latest time + 1 s; no note on gated channels/tracks. Non-trivial = (>=2 tracks or a tempo change after tick 0) and a tick with >=2 event classes.",
